@@ -51,6 +51,7 @@ def flush(run, drv, reqs):
         run.case(key, nontrivial=True)
         run.count("op", op[0])
         run.count("rank", len(spec[1]))
+        run.count("spelling", ["method-varargs", "method-list/kw-dim", "method-size/dims-kw", "torch-function", "method-keywords/expand_as", "defaults"][spelling])
         run.count("outcome", impl[0] if impl[0] != "err" else "err:" + impl[1])
         run.count("named", spec[2] is not None)
         run.count("nested", any(e[0] == "node" for _, e in spec[3]))
@@ -127,6 +128,7 @@ def main():
                 "(occasionally a zero-sized feature dim), optionally one nested tensordict with a 1-2 dims longer batch, named/unnamed, locked/unlocked; "
                 "ops permute/transpose/squeeze(dim|None)/unsqueeze/flatten/unflatten/view/reshape/expand/unbind/split(int|list)/chunk with valid arguments (75%) "
                 "and malformed ones (25%: out-of-range and negative dims, short/duplicate permutations, wrong products, several -1, oversize/negative split sizes); "
+                "every call in one of 6 spellings (method varargs / list / Size|dims= / torch.<op>(td, …) / method keywords, expand_as / defaulted arguments); "
                 "a case is distinct if (op, args, tree) is new. spec stream: the Lean rendering of torch vs torch itself on provenance tensors.")
     run.trusted += [
         "Model/C02Tensor.lean = our rendering of torch's shape ops as coordinate maps and of torch's argument checks; validated each run against torch 2.14 on provenance tensors (stream spec:*), not proved",
@@ -170,7 +172,7 @@ def main():
         spec = L.gen_tree(rng, bs, named=rng.random() < 0.45)
         malformed = rng.random() < 0.25
         op = L.gen_op(rng, bs, malformed)
-        one_case(run, reqs, spec, op, "td:malformed" if malformed else "td:valid", spelling=rng.choice([0, 0, 1, 2]), lock=rng.random() < 0.2)
+        one_case(run, reqs, spec, op, "td:malformed" if malformed else "td:valid", spelling=rng.choice([0, 0, 1, 2, 3, 3, 4, 5]), lock=rng.random() < 0.2)
         if rng.random() < 0.3:
             # extended domain: the same case on a lazy stack / a tensorclass (oracle only)
             L.run_container(run, spec, op, rng.choice(["lazy", "tc"]), rng, malformed)
@@ -290,6 +292,13 @@ def main():
         kind, specs, args = L.gen_ext(rng)
         run.case(("ext", kind, str(args), L.spec_sx(specs[0]), len(specs)))
         L.oracle_ext(run, kind, specs, args)
+        if kind in ("repeat", "repeat_interleave", "gather", "masked_select"):
+            # the same case on a tensorclass / on a lazy stack
+            r = rng.random()
+            if r < 0.3:
+                L.oracle_ext(run, kind, specs, args, container="tc", rng=rng)
+            elif r < 0.6:
+                L.oracle_ext(run, kind, specs, args, container="lazy", rng=rng)
 
     for s in [("permute", (1, 0)), ("flatten", 0, -1), ("splitlist", (1, 2), 1)]:
         spec = L.node((2, 3), ("a", None), [("x0", L.leaf((2, 3, 2))), ("n", L.node((2, 3, 2), None, [("y0", L.leaf((2, 3, 2)))]))])
